@@ -189,6 +189,75 @@ Proof.
   rewrite go_slice_ok by (rewrite app_length; lia). rewrite firstn_exact'. reflexivity.
 Qed.
 
+(* ================================================================ decimal floats: <nat>.<digits> *)
+Lemma split_dot_spec : forall l a ob, split_dot l = (a, ob) ->
+  match ob with
+  | None => l = a
+  | Some b => l = a ++ 46 :: b
+  end.
+Proof.
+  induction l as [|c r IH]; intros a ob H; cbn [split_dot] in H.
+  - inversion H; subst. reflexivity.
+  - destruct (c =? 46) eqn:E.
+    + inversion H; subst. apply N.eqb_eq in E. subst c. reflexivity.
+    + destruct (split_dot r) as [a' b'] eqn:Er. inversion H; subst. specialize (IH a' ob eq_refl).
+      destruct ob; cbn [app]; f_equal; exact IH.
+Qed.
+
+Lemma forallb_is_digit_isDigit l : forallb is_digit l = forallb isDigit l.
+Proof. reflexivity. Qed.
+
+Lemma scan_float a b rest :
+  plain_nat a = true -> forallb isDigit b = true -> b <> [] -> closer (hd0 rest) = true ->
+  scan_token false ((a ++ 46 :: b) ++ rest) = (token_FLOAT, a ++ 46 :: b, List.length (a ++ 46 :: b)).
+Proof.
+  intros Hp Hb Hne Hc. destruct (plain_nat_shape a Hp) as [d [ds' [-> [Hd [Hds Hz]]]]].
+  destruct (closer_facts _ Hc) as [C1 [C2 [C3 [C4 [C5 [C6 _]]]]]].
+  unfold scan_token. rewrite <- app_assoc. change ((d :: ds') ++ (46 :: b) ++ rest) with (d :: (ds' ++ 46 :: b ++ rest)). cbn [hd0 tl].
+  rewrite classify_digit by exact Hd. unfold read_number. cbn [tl].
+  assert (Hdot : (d =? 46) = false) by (unfold isDigit in Hd; lia). rewrite Hdot.
+  assert (Hx : ((d =? 48) && (hd0 (ds' ++ 46 :: b ++ rest) =? 120)) = false).
+  { destruct (d =? 48) eqn:E; [|reflexivity]. apply N.eqb_eq in E. rewrite (Hz E). reflexivity. }
+  assert (Hbb : ((d =? 48) && (hd0 (ds' ++ 46 :: b ++ rest) =? 98)) = false).
+  { destruct (d =? 48) eqn:E; [|reflexivity]. apply N.eqb_eq in E. rewrite (Hz E). reflexivity. }
+  rewrite Hx, Hbb.
+  assert (Hspan : span_len isDigitOrUnderscore (ds' ++ 46 :: b ++ rest) = List.length ds').
+  { apply span_len_app; [|reflexivity|apply byte_class_sane].
+    clear -Hds. induction ds' as [|x l IH]; [reflexivity|]. cbn [forallb] in *.
+    apply andb_true_iff in Hds. destruct Hds as [Hx Hl]. unfold isDigitOrUnderscore. rewrite Hx. cbn [orb]. exact (IH Hl). }
+  rewrite Hspan. cbn [negb orb].
+  change (d :: ds' ++ 46 :: b ++ rest) with ((d :: ds') ++ 46 :: b ++ rest).
+  change (S (List.length ds')) with (List.length (d :: ds')).
+  rewrite skipn_exact. cbn [hd0 tl]. change (46 =? 46) with true. cbn [andb].
+  assert (Hspan2 : span_len isDigitOrUnderscore (b ++ rest) = List.length b).
+  { apply span_len_app; [|exact C1|apply byte_class_sane].
+    clear -Hb. induction b as [|x l IH]; [reflexivity|]. cbn [forallb] in *.
+    apply andb_true_iff in Hb. destruct Hb as [Hx Hl]. unfold isDigitOrUnderscore. rewrite Hx. cbn [orb]. exact (IH Hl). }
+  rewrite Hspan2.
+  assert (SK : skipn (List.length (d :: ds') + 1 + List.length b) ((d :: ds') ++ 46 :: b ++ rest) = rest).
+  { replace (List.length (d :: ds') + 1 + List.length b)%nat with (List.length ((d :: ds') ++ 46 :: b)).
+    - change ((d :: ds') ++ 46 :: b ++ rest) with ((d :: ds') ++ (46 :: b) ++ rest). rewrite app_assoc. apply skipn_exact.
+    - rewrite app_length. cbn [List.length]. lia. }
+  rewrite SK.
+  assert (He : ((hd0 rest =? 101) || (hd0 rest =? 69)) = false) by lia. rewrite He. cbn [negb].
+  replace (List.length (d :: ds') + 1 + List.length b)%nat with (List.length ((d :: ds') ++ 46 :: b))
+    by (rewrite app_length; cbn [List.length]; lia).
+  change ((d :: ds') ++ 46 :: b ++ rest) with ((d :: ds') ++ (46 :: b) ++ rest). rewrite app_assoc.
+  rewrite go_slice_ok by (rewrite !app_length; lia). rewrite firstn_exact'. reflexivity.
+Qed.
+
+(* the two forms of a plain decimal *)
+Lemma plain_decimal_shape t : plain_decimal t = true ->
+  (split_dot t = (t, None) /\ plain_nat t = true) \/
+  (exists a b, split_dot t = (a, Some b) /\ t = a ++ 46 :: b /\ plain_nat a = true /\ forallb isDigit b = true /\ b <> []).
+Proof.
+  unfold plain_decimal. destruct (split_dot t) as [a ob] eqn:E. pose proof (split_dot_spec t a ob E) as S.
+  destruct ob as [b|]; intro H.
+  - right. exists a, b. apply andb_true_iff in H. destruct H as [H12 H3]. apply andb_true_iff in H12. destruct H12 as [H1 H2].
+    repeat split; auto. destruct b; [discriminate|discriminate].
+  - left. subst a. auto.
+Qed.
+
 (* ================================================================ quoted strings *)
 Lemma hex_val_hexdigit n : n < 16 -> hex_val (hexdigit n) = n.
 Proof.
@@ -307,6 +376,13 @@ Definition t_rbrace := ptk token_RBRACE [125].
 Definition t_assign := ptk token_ASSIGN [61].
 Definition t_int (n : N) := ptk token_INT (fmt_nat n).
 
+(* a finite float's magnitude is one number token: FLOAT when the text has a point, INT otherwise (1e21) *)
+Definition float_tok (t : bytes) : ptok :=
+  match split_dot t with
+  | (_, Some _) => ptk token_FLOAT t
+  | (_, None) => ptk token_INT t
+  end.
+
 Fixpoint vtoks (v : value) {struct v} : list ptok :=
   match v with
   | VInt (Zneg p) => [t_minus; t_int (Npos p)]
@@ -314,7 +390,7 @@ Fixpoint vtoks (v : value) {struct v} : list ptok :=
   | VFloat FNaN => [ptk token_IDENT (B"NaN")]
   | VFloat (FInf false) => [t_plus; ptk token_IDENT (B"Inf")]
   | VFloat (FInf true) => [t_minus; ptk token_IDENT (B"Inf")]
-  | VFloat (FFin _ _ _) => []
+  | VFloat (FFin neg m e) => (if neg then [t_minus] else []) ++ [float_tok (fmt_float_abs m e)]
   | VBool true => [ptk token_TRUE (B"true")]
   | VBool false => [ptk token_FALSE (B"false")]
   | VNil => [ptk token_IDENT (B"nil")]
@@ -348,10 +424,10 @@ Proof.
   induction l as [|[k x] r IH]; [reflexivity|]. cbn [map]. rewrite <- IH. reflexivity.
 Qed.
 
-(* the part of the domain this file is about: data, no finite float, string bytes below 256 *)
+(* the part of the domain this file is about: data, float texts in plain decimal form, string bytes below 256 *)
 Fixpoint lex_dom (v : value) {struct v} : bool :=
   match v with
-  | VFloat (FFin _ _ _) => false
+  | VFloat (FFin _ m e) => plain_decimal (fmt_float_abs m e)
   | VStr s => forallb (fun c => c <? 256) s
   | VArr l => forallb lex_dom l
   | VMap l =>
@@ -369,6 +445,26 @@ Definition lex_ok (v : value) : Prop :=
 Definition first_ok (v : value) : Prop :=
   forall rest, hd0 (inspect v ++ rest) <> 61 /\ hd0 (inspect v ++ rest) <> 62.
 
+Lemma plain_decimal_first t : plain_decimal t = true -> exists d r, t = d :: r /\ isDigit d = true.
+Proof.
+  intro H. destruct (plain_decimal_shape t H) as [[_ P]|[a [b [_ [E [P _]]]]]].
+  - destruct (plain_nat_shape t P) as [d [r [-> [Hd _]]]]. eauto.
+  - destruct (plain_nat_shape a P) as [d [r [-> [Hd _]]]]. subst t. cbn [app]. eauto.
+Qed.
+
+(* lexing the magnitude of a finite float *)
+Lemma lex_float_text t rest toks :
+  plain_decimal t = true -> closer (hd0 rest) = true -> lexes_as rest toks ->
+  lexes_as (t ++ rest) (float_tok t :: toks).
+Proof.
+  intros H Hc Hl. destruct (plain_decimal_first t H) as [d [r [Et Hd]]].
+  assert (W : isWhiteSpace (hd0 t) = false) by (rewrite Et; cbn [hd0]; unfold isDigit, isWhiteSpace in *; lia).
+  assert (NE : t <> []) by (rewrite Et; discriminate).
+  unfold float_tok. destruct (plain_decimal_shape t H) as [[E P]|[a [b [E [Eab [P [Hb Hne]]]]]]]; rewrite E.
+  - apply lexes_cons; try reflexivity; [exact NE|exact W| |exact Hl]. apply scan_int; assumption.
+  - apply lexes_cons; try reflexivity; [exact NE|exact W| |exact Hl]. rewrite Eab. apply scan_float; assumption.
+Qed.
+
 Lemma first_ok_all v : lex_dom v = true -> first_ok v.
 Proof.
   intros D rest. destruct v as [z|f|b| |s|l|l|k s]; cbn [inspect lex_dom] in *; try discriminate.
@@ -376,7 +472,8 @@ Proof.
     + cbn. lia.
     + destruct (fmt_nat_first (N.pos p)) as [d [r [E Hd]]]. rewrite E. cbn [app hd0]. unfold isDigit in Hd. lia.
     + cbn [app hd0]. lia.
-  - destruct f as [|[|]|]; try discriminate; cbn; lia.
+  - destruct f as [|[|]|neg m e]; try (cbn; lia). cbn [fmt_float].
+    destruct (plain_decimal_first _ D) as [d [r [E Hd]]]. rewrite E. unfold isDigit in Hd. destruct neg; cbn [app hd0]; lia.
   - destruct b; cbn; lia.
   - cbn; lia.
   - unfold go_quote. cbn [app hd0]. lia.
@@ -430,7 +527,15 @@ Proof.
         apply scan_int; [apply fmt_nat_plain|exact Hc].
   - (* floats: only NaN and the infinities *)
     destruct (closer_facts _ Hc) as [_ [_ [_ [_ [_ [_ [Han _]]]]]]].
-    destruct f as [|[|]|]; try discriminate; cbn [inspect fmt_float vtoks].
+    destruct f as [|[|]|neg m e]; cbn [inspect fmt_float vtoks].
+    4: {
+      destruct (plain_decimal_first _ D) as [d [r [E Hd]]].
+      destruct neg; cbn [app].
+      - change (45 :: fmt_float_abs m e ++ rest) with ([45] ++ (fmt_float_abs m e ++ rest)).
+        apply lexes_cons; try reflexivity; [discriminate| |].
+        + apply scan_minus. rewrite E. cbn [app hd0]. unfold isDigit in Hd. lia.
+        + apply lex_float_text; assumption.
+      - apply lex_float_text; assumption. }
     + change (B"NaN") with ([78; 97; 78]). change ([ptk token_IDENT [78; 97; 78]] ++ toks) with (ptk token_IDENT [78; 97; 78] :: toks).
       word_tok; [|exact Hl]. apply (scan_word 78 [97; 78] rest); [reflexivity|reflexivity|exact Han].
     + change (B"-Inf") with ([45] ++ [73; 110; 102]). rewrite <- app_assoc.
